@@ -453,6 +453,22 @@ def c11(s):
             ok = authenticated(t.outcome) or t.outcome[0] == 3 or (t.kind == "f" and t.outcome[:2] == [2, 204])
             if ok:
                 out.append(("c11-authenticated-after-provider-rejection", "request authenticated although the provider rejected the refresh token", {"thread": t.tid}))
+        if rejected and t.k is not None and t.done_idx is not None:
+            # "a provider rejection of the refresh token makes the session unauthenticated": not only for the request that saw
+            # it - as long as nobody has obtained new tokens for the session (a later accepted grant, or a new login), requests
+            # presenting that session's cookie must not be served with a token either.
+            for o in s.threads.values():
+                if o is t or o.k != t.k or o.dek != t.dek or o.spawn_idx <= t.done_idx or o.outcome is None or o.kind not in ("p", "f") or o.faulted or o.cancelled:
+                    continue
+                renewed = any(op[0] == 6 and op[2] == 1 and t.done_idx < i <= (o.done_idx if o.done_idx is not None else len(s.events))
+                              for u in s.threads.values() if u.k == t.k for (i, op, _, _) in u.ops)
+                relogin = any(t.done_idx < li <= o.spawn_idx and sid == t.k for (li, sid, _) in s.logins)
+                ok2 = authenticated(o.outcome) or (o.kind == "f" and o.outcome[:2] == [2, 204])
+                if ok2 and not renewed and not relogin:
+                    out.append(("c11-authenticated-after-provider-rejection",
+                                "a later request with the session's cookie is served with a token although the provider rejected the session's refresh token and no refresh has succeeded since",
+                                {"rejected_in_thread": t.tid, "later_thread": o.tid}))
+                    break
         if t.kind in LOGOUT_SUCCESS:
             success = t.outcome[0] == 2 and t.outcome[1] == LOGOUT_SUCCESS[t.kind]
             store_ops = [op for (_, op, _, _) in t.ops if op[0] in (1, 3)]
